@@ -27,7 +27,7 @@ def parsePayload (t : String) : Option Payload := parseCmdTok (t.splitOn ".")
 
 /-- Harness-level ops (`p` is a macro over `run1`). -/
 inductive HOp where
-  | a (p : Payload) | c (n : Nat) | p | w | r
+  | a (p : Payload) | c (n : Nat) | p | w | r | s (n : Nat)
 
 def parseOp (t : String) : Option HOp :=
   match t.splitOn ":" with
@@ -36,6 +36,7 @@ def parseOp (t : String) : Option HOp :=
   | ["p"] => some .p
   | ["w"] => some .w
   | ["r"] => some .r
+  | ["s", n] => n.toNat?.map .s
   | _ => none
 
 def parseCase (line : String) : Option (Nat × List HOp) :=
@@ -54,6 +55,7 @@ def showCmd : Cmd → String
 def showACmd : ACmd → String
   | .noop => "n"
   | .op c => showCmd c
+  | .snap => "S"
 
 def joinOr (l : List String) (sep : String) : String := if l.isEmpty then "-" else sep.intercalate l
 
@@ -70,6 +72,11 @@ def hops (s : St) : HOp → List Op
   | .p => List.replicate s.notif.length .run1 ++ [.fetch]
   | .w => [.apply, .fetch]
   | .r => [.restart]
+  | .s n => [.snap n]
+
+/-- The harness refuses a snapshot of a prefix that does not exist or does not decode. -/
+def snapValid (s : St) (n : Nat) : Bool :=
+  n != 0 && n ≤ s.log.length && (s.log.take n).all (fun p => !isBad p)
 
 def hstep (mb : Nat) (s : St) (op : HOp) : St := exec mb s (hops s op)
 
@@ -80,6 +87,9 @@ def tagsOf (mb : Nat) (s : St) (op : HOp) : List String :=
       | .bad => ["append:bad"] | .empty => ["append:empty"] | .config false => ["append:cfg-fail"] | _ => []
   | .c n => if n ≤ s.pending then ["commit:stale"] else if n > s.log.length then ["commit:beyond-log"] else []
   | .r => ["restart"] ++ (if s.queue.isEmpty then [] else ["restart:queue-lost"])
+  | .s n => ["snapshot"] ++
+      (if s.holding.isSome || !s.queue.isEmpty then ["snapshot:batches-in-flight"] else []) ++
+      (if n < s.smLast then ["snapshot:behind-applied"] else [])
   | .w =>
       if s.workerDead then ["work:dead"] else
       match s.holding with
@@ -98,7 +108,7 @@ def tagsOf (mb : Nat) (s : St) (op : HOp) : List String :=
         if s1.pending ≤ s1.lastApplied then ["pb:nothing-pending"]
         else if max (s1.lastApplied + 1) (s1.dispatched + 1) > s1.pending then ["pb:all-dispatched"]
         else
-          let es := entriesFrom s1.log (max (s1.lastApplied + 1) (s1.dispatched + 1)) s1.pending
+          let es := entriesFrom s1.log s1.base (max (s1.lastApplied + 1) (s1.dispatched + 1)) s1.pending
           (if s1.dispatched > s1.lastApplied then ["pb:skip-dispatched"] else []) ++
           (if es.isEmpty then ["pb:no-entries"] else ["pb:dispatch"]) ++
           (if es.any (fun e => e.2 == .empty) then ["pb:skip-empty-payload"] else []) ++
@@ -109,7 +119,8 @@ def tagsOf (mb : Nat) (s : St) (op : HOp) : List String :=
       t0 ++ t1 ++ (if s2.queue.length > s.queue.length + 1 then ["pb:multi-batch"] else []) ++
       (if s2.workerDead then ["work:decode-fail"] else [])
 
-def showChunk (c : List Nat) : String := s!"{c.head?.getD 0}-{c.getLast?.getD 0}"
+def showChunk (c : List Nat) : String :=
+  if c.head? == some 0 then s!"S{c.getLast?.getD 0}" else s!"{c.head?.getD 0}-{c.getLast?.getD 0}"
 
 def render (las : List Nat) (s : St) : String :=
   let kv := (s.kv.filter (·.1 < 8)).mergeSort (fun a b => a.1 ≤ b.1)
@@ -117,15 +128,16 @@ def render (las : List Nat) (s : St) : String :=
   s!"applied={joinOr (s.applied.map fun a => s!"{a.1}:{showACmd a.2}") ","} " ++
   s!"kv={joinOr (kv.map fun a => s!"{a.1}:{a.2}") ","} smla={s.smLast} " ++
   s!"cfg={joinOr (s.cfgCalls.map fun a => s!"{a.1}:{if a.2 then 1 else 0}") ","} " ++
-  s!"ac={showNatList (s.chunks.map fun c => c.getLast?.getD 0)}"
+  s!"ac={showNatList ((s.chunks.filter (·.head? != some 0)).map fun c => c.getLast?.getD 0)}"
 
 def runCase (mb : Nat) (ops : List HOp) : String × List String :=
-  let (s, las, tags) := ops.foldl (fun (acc : St × List Nat × List String) op =>
-      let (s, las, tags) := acc
+  let (s, las, tags, valid) := ops.foldl (fun (acc : St × List Nat × List String × Bool) op =>
+      let (s, las, tags, valid) := acc
       let s' := hstep mb s op
-      (s', las ++ [s'.lastApplied], tags ++ tagsOf mb s op)) (({} : St), [], [])
+      let v := match op with | .s n => snapValid s n | _ => true
+      (s', las ++ [s'.lastApplied], tags ++ tagsOf mb s op, valid && v)) (({} : St), [], [], true)
   let sF := iter (fun x => fetch (applyHeld x)) (s.queue.length + 1) s
-  (render las sF, tags.eraseDups)
+  if valid then (render las sF, tags.eraseDups) else ("bad-case", ["bad-snapshot-op"])
 
 def modelLine (line : String) : String :=
   match parseCase line with
@@ -142,6 +154,7 @@ def parseApplied (s : String) : Option (List (Nat × ACmd)) :=
     match t.splitOn ":" with
     | [i, c] => do
         let i ← i.toNat?
+        if c == "S" then pure (i, ACmd.snap) else
         let p ← parsePayload c
         match p with
         | .cmd x => pure (i, ACmd.op x)
@@ -160,29 +173,42 @@ def isSortedLe : List Nat → Bool
   | a :: b :: r => a ≤ b && isSortedLe (b :: r)
   | _ => true
 
-/-- The decidable C06 predicate on an observation: applied indexes are exactly 1..n in order, each is the
-    log's command at that index, nothing beyond the highest announced commit index, handler
-    `last_applied` never moves backwards and ends at n, and the KV content is the fold of the applied commands. -/
+/-- Signature of the first out-of-order state-machine input (only called when `walk` fails). -/
+def walkSig : Nat → Bool → List (Nat × ACmd) → String
+  | _, _, [] => "applied-index-gap"
+  | pos, snapped, (i, c) :: rest =>
+    match c with
+    | .snap => if i < pos then "snapshot-behind-applied" else walkSig i true rest
+    | _ =>
+      if i == pos + 1 then walkSig i snapped rest
+      else if i ≤ pos then
+        (if snapped then "stale-batch-applied-after-snapshot" else "applied-index-repeated")
+      else "applied-index-gap"
+
+/-- The decidable C06 predicate on an observation: state-machine inputs are in order (each command index =
+    previous position + 1, snapshot installs move the position), each is the log's command at that index,
+    nothing beyond the highest announced commit index, handler `last_applied` never moves backwards, the
+    state machine's `last_applied` is the final position, and the KV content is the fold of the log prefix
+    up to that position. -/
 def monitorC06 (ops : List HOp) (out : String) : String :=
   let fs := fields out
   match (lookup fs "applied").bind parseApplied, (lookup fs "kv").bind parseKv,
         (lookup fs "la").bind natList, natField fs "fla", natField fs "smla" with
   | some applied, some kv, some las, some fla, some smla =>
     let log : List Payload := ops.filterMap fun | .a p => some p | _ => none
-    let maxCommit := ops.foldl (fun m op => match op with | .c n => max m n | _ => m) 0
-    let idx := applied.map (·.1)
-    let n := idx.length
-    if idx != List.range' 1 n then
-      (if idx.eraseDups.length != n then "bad applied-index-repeated"
-       else if !isSortedLe idx then "bad applied-out-of-order" else "bad applied-index-gap")
-    else if applied.any (fun a => (log[a.1 - 1]?).map decode != some a.2) then "bad applied-wrong-command"
-    else if n > maxCommit then "bad applied-uncommitted"
-    else if !isSortedLe las then "bad last-applied-regressed"
-    else if fla != n || smla != n then "bad last-applied-not-last"
-    else
-      let want := (applied.foldl (fun m a => applyACmd m a.2) ([] : KV)).filter (·.1 < 8)
-      let want := want.mergeSort (fun a b => a.1 ≤ b.1)
-      if want != kv then "bad kv-not-fold-of-applied" else "ok"
+    let maxCommit := ops.foldl (fun m op => match op with | .c n => max m n | .s n => max m n | _ => m) 0
+    let hasSnap := ops.any (fun | .s _ => true | _ => false)
+    match walk 0 applied with
+    | none => s!"bad {walkSig 0 false applied}"
+    | some n =>
+      if applied.any (fun a => a.2 != ACmd.snap && (log[a.1 - 1]?).map decode != some a.2) then "bad applied-wrong-command"
+      else if n > maxCommit then "bad applied-uncommitted"
+      else if !isSortedLe las && !hasSnap then "bad last-applied-regressed"
+      else if smla != n || (fla != n && !hasSnap) then "bad last-applied-not-last"
+      else
+        let want := ((log.take n).foldl (fun m p => applyACmd m (decode p)) ([] : KV)).filter (·.1 < 8)
+        let want := want.mergeSort (fun a b => a.1 ≤ b.1)
+        if want != kv then "bad kv-not-fold-of-committed-prefix" else "ok"
   | _, _, _, _, _ => if out == "bad-case" then "skip" else "bad unparsable-output"
 
 def monitorLine (prop : String) (line : String) : String :=
